@@ -95,7 +95,14 @@ inductive Expr where
   | sum (v : Nat) (e : Expr)
   | prod (v : Nat) (e : Expr)
   | cat (v : Nat) (parts : List (Nat × Nat))
+  | scat (i k : Nat) (t : List Nat) (e : Expr)
   deriving Inhabited
+
+/-- the functional index map of a Scatter: `idx(k') = t[k']` (total by the driver's `wf` check) -/
+def tabAt (t : List Nat) (j : Nat) : Nat :=
+  match t[j]? with
+  | some x => x
+  | none => 0
 
 section
 variable {R : Type} (o : Ops R)
@@ -141,6 +148,9 @@ def eval : Expr → Env → R
   | .sum v e, env => sumTo o (sz v) (fun k => eval e (upd env v k))
   | .prod v e, env => prodTo o (sz v) (fun k => eval e (upd env v k))
   | .cat v parts, env => catEval o L v parts 0 env
+  | .scat i k t e, env =>
+      -- forward Scatter(sum_op, ((i, idx(k)),), e, {k}):  dest[i] = ⨁_{k' : idx(k') = i} e(k')
+      sumTo o (sz k) (fun k' => if tabAt t k' = env i then eval e (upd env k k') else o.zero)
 
 def fvMask : Expr → Mask
   | .acc id σ => fun k => (nameMask L id k && !σ.keys k) || σ.valvars k
@@ -149,6 +159,7 @@ def fvMask : Expr → Mask
   | .sum v e => fun k => fvMask e k && k != v
   | .prod v e => fun k => fvMask e k && k != v
   | .cat _ parts => fun k => parts.any (fun p => nameMask L p.1 k)
+  | .scat i k _ e => fun j => (fvMask e j && j != k) || j == i
 
 /-- indicator that the occurrence reads entry `p` of the leaf -/
 def hits (names : List Nat) (q p : Env) : Bool := names.all (fun k => q k == p k)
@@ -172,6 +183,8 @@ def deriv (id : Nat) (p : Env) : Expr → Env → R
       o.mul (deriv id p e (upd env v k))
             (prodTo o (sz v) (fun j => if j = k then o.one else eval o sz L e (upd env v j))))
   | .cat v parts, env => catDeriv o L id p v parts 0 env
+  | .scat i k t e, env =>
+      sumTo o (sz k) (fun k' => if tabAt t k' = env i then deriv id p e (upd env k k') else o.zero)
 
 /-! ### the reverse sweep -/
 
@@ -223,6 +236,12 @@ def catBack (n : Nat) (F : Mask) (v : Nat) (V : Mask) (a : NT R) : List (Nat × 
   | (id, len) :: rest, off =>
       addF o (single o id (catPart o sz L n F v V a id off)) (catBack n F v V a rest (off + len))
 
+/-- `adjoint_scatter` (HEAD, after 63a064e): the adjoint of the source is `out_adj` read at the scattered
+    positions, `out_adj(i = idx(k))` — a function of the source's own variable `k`, not reduced over it. -/
+def scatMsg (i k : Nat) (t : List Nat) (a : NT R) : NT R :=
+  ⟨fun j => (a.mask j && j != i) || (a.mask i && j == k),
+   fun env => a.f (upd env i (tabAt t (env k)))⟩
+
 /-- The reverse sweep from a node with (already aggregated) incoming adjoint `a`; the result maps
     every leaf to its accumulated adjoint.  `F` = inputs of the root, `n` bounds the variables. -/
 def backward (n : Nat) (F : Mask) : Expr → NT R → (Nat → NT R)
@@ -246,6 +265,7 @@ def backward (n : Nat) (F : Mask) : Expr → NT R → (Nat → NT R)
       backward n F e (agg o sz n F (fvMask L e)
         (divNT o (mulNT o a (valNT o sz L (.prod v e))) (valNT o sz L e)))
   | .cat v parts, a => catBack o sz L n F v (fvMask L (.cat v parts)) a parts 0
+  | .scat i k t e, a => backward n F e (agg o sz n F (fvMask L e) (scatMsg i k t a))
 
 /-- `forward_backward`: forward value and the adjoint of every leaf. -/
 def adjoint (n : Nat) (e : Expr) : Nat → NT R := backward o sz L n (fvMask L e) e (oneNT o)
